@@ -4,7 +4,7 @@ Product exploration: (real instance) x (specification automaton dumped by TLC fr
 models/Lifecycle.tla) over a 12-event alphabet.  Stateful BFS to FIXPOINT on the canonical
 product state (every history of any length), plus stateless enumeration of ALL histories up
 to a depth as a cross-check that canonicalisation merged nothing it should not."""
-import copy, itertools, json
+import copy, inspect, itertools, json
 from .. import target as T, core
 from ..core import Acc
 from ..ref import spake2 as RS, lifecycle
@@ -27,7 +27,32 @@ ASSUMPTIONS = ["models/Lifecycle.tla is the statement of C07 (TLC checks its inv
 EXHAUSTIVE = True
 EVENTS = ["start", "start_raise", "fin_valid", "fin_own_side", "fin_unknown_side", "fin_reflected", "fin_undecodable", "fin_identity",
           "fin_empty", "fin_overlong", "fin_truncated", "serialize", "restore", "restore_wrong"]
+NAMED_API = {"start", "finish", "serialize", "from_serialized"}
 _GRAPH = None
+
+
+def discover_ops(cls):
+    """public zero-argument methods of the class that the statement does not name ("any sequence of calls on one instance"):
+    found by introspection of the tree under test, so an operation ADDED by a change (close(), reset(), with-support) joins the
+    alphabet without the harness knowing its name.  Outcome of such a call: anything (automaton action Other_Any)."""
+    ops = []
+    for name in sorted(set(dir(cls))):
+        if name in NAMED_API or (name.startswith("_") and name not in ("__enter__", "__exit__", "__call__", "__iter__", "__bool__", "__len__")):
+            continue
+        try:
+            raw = inspect.getattr_static(cls, name)
+            if isinstance(raw, (classmethod, staticmethod, property)) or not callable(getattr(cls, name)):
+                continue
+            sig = inspect.signature(getattr(cls, name))
+        except Exception:
+            continue
+        params = list(sig.parameters.values())[1:]
+        need = [p_ for p_ in params if p_.default is p_.empty and p_.kind in (p_.POSITIONAL_ONLY, p_.POSITIONAL_OR_KEYWORD, p_.KEYWORD_ONLY)]
+        if name == "__exit__":
+            ops.append("op:__exit__")
+        elif not need:
+            ops.append("op:" + name)
+    return ops
 
 
 def graph():
@@ -103,6 +128,8 @@ class World:
             self.refclass[ev] = "FinValid" if r[0] == "key" else "FinBad"
         self.other = {"A": "B", "B": "S", "S": "A"}[side]
         self.fam = self.inst.kind if self.inst.small else self.inst.name
+        self.ops = discover_ops(T.styled_class(T.lib().cls[side]))
+        self.events = EVENTS + self.ops
 
     def desc(self):
         return {"inst": self.inst.desc, "side": self.side, "x": self.x}
@@ -160,7 +187,7 @@ def step_model(W, s, action, acc, hist, ev, observed):
 
 
 def model_name(m):
-    return "%s%s%s%s" % (m[0], "+restored" if m[1] else "", "+keyOut" if m[2] else "", "+finTried" if m[3] else "")
+    return "%s%s%s%s%s" % (m[0], "+restored" if m[1] else "", "+keyOut" if m[2] else "", "+finTried" if m[3] else "", "+touched" if len(m) > 6 and m[6] else "")
 
 
 def note_scalar(W, s, blob, acc, hist, ev):
@@ -181,9 +208,14 @@ def apply(W, s, ev, acc, hist):
     """execute one event on the real instance, judge it against the automaton, return the outcome label"""
     T.clock.advance(1800)          # half an hour passes between any two calls of a history
     cur = s.cur
+    if ev.startswith("op:"):
+        name = ev[3:]
+        got = T.observe(lambda: getattr(cur, name)(None, None, None) if name == "__exit__" else getattr(cur, name)())
+        step_model(W, s, "Other_Any", acc, hist, ev, got[0] if got[0] == "ok" else got)
+        return "Other_Any"
     if ev in ("start", "start_raise"):
         s.ent.fail = (ev == "start_raise")
-        got = T.observe(cur.start)
+        got = T.observe(T.do_start, cur)
         s.ent.fail = False
         if got[0] == "ok":
             action = "Start_Msg"
@@ -192,7 +224,7 @@ def apply(W, s, ev, acc, hist):
         step_model(W, s, action, acc, hist, ev, got if got[0] != "ok" else "message")
         return action
     if ev.startswith("fin_"):
-        got = T.observe(cur.finish, W.msgs[ev])
+        got = T.observe(T.do_finish, cur, W.msgs[ev])
         cls = W.refclass[ev]
         if got[0] == "ok":
             action = cls + "_Key"
@@ -201,7 +233,7 @@ def apply(W, s, ev, acc, hist):
         step_model(W, s, action, acc, hist, ev, got if got[0] != "ok" else "key")
         return action
     # serialize / restore / restore_wrong all begin with serialize()
-    got = T.observe(cur.serialize)
+    got = T.observe(T.do_serialize, cur)
     if got[0] == "ok":
         action = "Ser_Blob"
     elif got[1] == "SerializedTooEarly":
@@ -227,8 +259,9 @@ def apply(W, s, ev, acc, hist):
     return action + "," + a2
 
 
-def bfs_world(W, acc, snapshot=True):
+def bfs_world(W, acc, snapshot=True, events=None):
     """stateful search to fixpoint; returns {canon: min depth}"""
+    events = events or W.events
     s0 = initial(W)
     seen = {s0.canon(): 0}
     frontier = [(s0, ())]
@@ -236,7 +269,7 @@ def bfs_world(W, acc, snapshot=True):
     while frontier:
         nxt = []
         for s, hist in frontier:
-            for ev in EVENTS:
+            for ev in events:
                 t = clone(s)
                 apply(W, t, ev, acc, hist)
                 if t.bad:
@@ -256,18 +289,24 @@ def bfs_world(W, acc, snapshot=True):
 
 
 def _bfs_task(task):
-    name, side, x = task
+    name, side, x = task[:3]
+    style = task[3] if len(task) > 3 else None
     acc = Acc()
     inst, why = T.try_get(name)
     if inst is None:
         acc.degrade("%s unavailable: %s" % (name, why))
         return acc
-    W = World(name, side, x)
-    seen = bfs_world(W, acc)
+    with T.call_style(style):
+        W = World(name, side, x)
+        seen = bfs_world(W, acc)
     acc.inst(name, product_states=len(seen))
     acc.n(traces=1)
-    if side == "A":
-        acc.sample({"world": [name, side, x], "product_states": len(seen), "events": EVENTS})
+    if side == "A" and style is None:
+        acc.sample({"world": [name, side, x], "product_states": len(seen), "events": W.events})
+    acc.extra.setdefault("discovered_operations", {})[side] = W.ops
+    if style is not None:
+        acc.extra.pop("bfs", None)
+        acc.tag_env("style:" + style)
     return acc
 
 
@@ -344,6 +383,9 @@ def run(tier, seed):
         else:
             ws.append(w)
     tasks = [("bfs", w) for w in ws]
+    # the same worlds with the application calling the library in another way (methods reached through the class, subclasses, ...)
+    for st in ("unbound-calls", "subclass", "subclass-init", "positional", "password-keyword"):
+        tasks += [("bfs", w + (st,)) for w in ws if w[0] in (("T23",) if quick else ("T23", "E109", "ParamsEd25519")) and (w[2] != 0 or not quick)]
     sl = []
     d_all, d_one = (4, 5) if quick else (5, 6)
     for side in "ABS":
@@ -364,7 +406,7 @@ def run(tier, seed):
     for key, cs in stateless.items():
         name, side, x = key.split("/")
         W = World(name, side, int(x))
-        seen = bfs_world(W, Acc())
+        seen = bfs_world(W, Acc(), events=EVENTS)
         depth = d_one if (side == "A" and int(x) == 0) else d_all
         bfs_set = {core.h8(c).hex() for c, d in seen.items() if d <= depth}
         cs = cs | {core.h8(initial(W).canon()).hex()}
